@@ -91,8 +91,12 @@ def run_case(case):
         r.violation(f'{sig}:argument-reuse', f'{fam} theta={th}: cumulative_distribution '
                     f'{"modified its argument" if not np.array_equal(same, P) else "answers differently the second time"} '
                     f'when the same array object is evaluated twice', case=case)
-    r.ev(len(P) * (4 + k))
-    for name, arr in (('full', full), ('reversed', rev), ('boundary-first', zf)) + \
+    # ... and the same array object REFILLED in place between two calls: the answer is a function of the values
+    same[:] = P[::-1]
+    r.tr()
+    refilled = np.asarray(cop.cumulative_distribution(same), float)[::-1]
+    r.ev(len(P) * (5 + k))
+    for name, arr in (('full', full), ('reversed', rev), ('boundary-first', zf), ('same-object-refilled-in-place', refilled)) + \
             tuple((f'tile{j}', tiled[j]) for j in (0, k - 1)):
         bad = np.nonzero(~((np.abs(arr - alone) <= TOL_BATCH * np.maximum(1, np.abs(alone))) |
                            (np.isnan(arr) & np.isnan(alone))))[0]
